@@ -16,7 +16,7 @@ def sh(cmd, cwd=None):
 def one(pf):
     d = os.path.dirname(pf)
     prop, n = d.split(os.sep)[-2:]
-    name = '%s-b%s' % (prop, n)
+    name = '%s-b%d' % (prop, int(n) + int(os.environ.get('BENIGN_OFFSET', '0')))
     wt = tempfile.mkdtemp(prefix='benwt-', dir='/tmp')
     os.rmdir(wt)
     rc, o = sh('git -C /repo worktree add -q --detach %s HEAD' % wt)
